@@ -3,8 +3,10 @@
 set -u
 P=$1; PATCH=$2; TIER=${3:---quick}
 cd /verif
+cp evidence/$P.json /tmp/seedtest_evidence_$P.json 2>/dev/null
 git -C /repo apply "$PATCH" || { echo "patch does not apply"; exit 2; }
 ./check $P $TIER > /tmp/seedtest_$P.out 2>&1; rc=$?
 git -C /repo checkout -- .
+cp /tmp/seedtest_evidence_$P.json evidence/$P.json 2>/dev/null
 grep -E "VIOLATION|KNOWN-FINDING|obligations=" /tmp/seedtest_$P.out
 echo "rc=$rc"
